@@ -661,18 +661,29 @@ def bpPublic (aTok : List UInt8) (addr : Nat) : R (Option (Nat × Option Nat)) :
     let a := a64 % two32
     publicLookup (bsearch1 a addr) [a]
 
-/-- `FUNC 1000 100 0 fn` + line record `<a> <s> <line> <file>`; lookup of `addr ∈ [0x1000, 0x1100)` →
-line number of the innermost source location -/
-def bpLine (aTok sTok lTok fTok : List UInt8) (addr : Nat) : R (Option Nat) := do
+/-- prefix parse of the last token of a record: trailing bytes are ignored by the tokenizer -/
+def prefixHex (bits : Nat) (tok : List UInt8) : R Nat := do
+  let (_, v) ← hexStr bits tok
+  pure v
+
+def prefixDec (tok : List UInt8) : R Nat := do
+  let (_, v) ← decimalU32 tok
+  pure v
+
+/-- `FUNC 1000 100 0 fn` + line record `<a> <s> <line> <file>` (index.rs:991-1005; a record that does
+not parse is skipped); lookup of `addr`: outside `[0x1000, 0x1100)` there is no symbol (`none`), inside
+→ line number of the innermost source location (`some none` when no record covers it) -/
+def bpLine (aTok sTok lTok fTok : List UInt8) (addr : Nat) : R (Option (Option Nat)) := do
+  if addr < 4096 ∨ addr ≥ 4352 then pure none else
   let rec_ ← orNone (do
-    let a ← fullHex 64 aTok; let _ ← fullHex 32 sTok; let l ← fullDec lTok; let _ ← fullDec fTok
+    let a ← fullHex 64 aTok; let _ ← fullHex 32 sTok; let l ← fullDec lTok; let _ ← prefixDec fTok
     pure (a % two32, l))
   match rec_ with
-  | none => pure none
+  | none => pure (some none)
   | some (a, l) =>
     match ← sourcelocAt (bsearch1 a addr) 1 with
-    | none => pure none
-    | some _ => pure (some l)
+    | none => pure (some none)
+    | some _ => pure (some (some l))
 
 /-- lexicographic binary search of a one-element inlinee list by `(depth, address)` -/
 def bsearchInl1 (inl : Inlinee) (depth addr : Nat) : BsRes :=
@@ -680,11 +691,13 @@ def bsearchInl1 (inl : Inlinee) (depth addr : Nat) : BsRes :=
   else if inl.depth < depth ∨ (inl.depth = depth ∧ inl.address < addr) then .notFound 1
   else .notFound 0
 
-/-- `FUNC 1000 100 0 fn` + `INLINE <d> 7 0 0 <a> <s>`; lookup of `addr` → number of frames (1 outer +
-inline depth reached). An INLINE line that fails to parse makes the FUNC block unparseable (`none`). -/
+/-- `FUNC 1000 100 0 fn` + `INLINE <d> 7 0 0 <a> <s>` (index.rs:1086-1120); lookup of `addr` → number
+of frames (1 outer + inline depth reached). An INLINE line that fails to parse makes the FUNC block
+unparseable, and outside `[0x1000, 0x1100)` there is no symbol (`none`). -/
 def bpInline (dTok aTok sTok : List UInt8) (addr : Nat) : R (Option Nat) := do
+  if addr < 4096 ∨ addr ≥ 4352 then pure none else
   let rec_ ← orNone (do
-    let d ← fullDec dTok; let a ← fullHex 32 aTok; let s ← fullHex 32 sTok
+    let d ← fullDec dTok; let a ← fullHex 32 aTok; let s ← prefixHex 32 sTok
     pure (⟨d, a, s⟩ : Inlinee))
   match rec_ with
   | none => pure none
@@ -696,7 +709,6 @@ def bpInline (dTok aTok sTok : List UInt8) (addr : Nat) : R (Option Nat) := do
       match ← inlineeAt (bsearchInl1 inl 1 addr) [inl] 1 addr with
       | none => pure (some 2)
       | some _ => pure (some 3)
-
 
 /-! ### Specification-side predicates used in the theorem statements -/
 
@@ -712,6 +724,9 @@ def BsOk (r : BsRes) (len : Nat) : Prop :=
   match r with
   | .found i => i < len
   | .notFound i => i ≤ len
+
+instance (r : BsRes) (len : Nat) : Decidable (BsOk r len) := by
+  unfold BsOk; split <;> infer_instance
 
 def totalLen (chunks : List (List UInt8)) : Nat := (chunks.map List.length).sum
 
